@@ -27,7 +27,7 @@ type rec struct {
 	kind string
 	s    string
 	v    any
-	in   string // "file", "standard-batch", "IAT-batch", "ADV-batch"
+	in   string                        // "file", "standard-batch", "IAT-batch", "ADV-batch"
 	b    interface{ Validate() error } // the batch holding the record, if any
 }
 
